@@ -138,7 +138,7 @@ pub fn draw(sh: Shape) -> Inputs {
             lo,
             hi,
         },
-        script: Script { valid, score, init_score },
+        script: Script { valid: valid as u64, score, init_score },
         init,
         exp_choice,
         powf_choice: pick(&POWFS, k_powf),
